@@ -134,6 +134,7 @@ def extra(ctx):
     n_ok = 0
     for (ln, o), m in zip(origin, mo):
         if m.strip() == '1': n_ok += 1
+        elif vlib.timed_out(ctx, m): pass
         else:
             try: txt = bytes.fromhex(o.split()[0][2:]).decode('latin1')
             except Exception: txt = '?'
